@@ -75,12 +75,14 @@ structure ChanInv (ch : Chan) : Prop where
   unb_len : ch.cap = 0 → ch.len = 0
   unb_hist : ch.cap = 0 → ch.sent = ch.recvd
   unb_armed : ch.cap = 0 → ch.getp = hasRecv → ch.slot.isSome
+  sent_by : ch.sentBy.map (·.2) = ch.sent
+  recv_by : ch.recvBy.map (·.2) = ch.recvd
 
 theorem newChan_inv (cfg : Cfg) (cap : Nat) : ChanInv (newChan cfg cap) := by
   constructor <;> simp [newChan, Chan.contents, ringFrom, hasRecv]
 
-theorem push_inv {ch : Chan} (h : ChanInv ch) (hcap : ch.cap ≠ 0) (hlt : ch.len ≠ ch.cap) (v : Val) :
-    ChanInv (ch.push v) := by
+theorem push_inv {ch : Chan} (h : ChanInv ch) (hcap : ch.cap ≠ 0) (hlt : ch.len ≠ ch.cap) (t : Tid) (v : Val) :
+    ChanInv (ch.push t v) := by
   have hlen := h.lenle
   constructor
   · simp [Chan.push, h.dlen]
@@ -93,8 +95,10 @@ theorem push_inv {ch : Chan} (h : ChanInv ch) (hcap : ch.cap ≠ 0) (hlt : ch.le
   · intro hc; exact absurd hc hcap
   · intro hc; exact absurd hc hcap
   · intro hc; exact absurd hc hcap
+  · simp [Chan.push, h.sent_by]
+  · simp [Chan.push, h.recv_by]
 
-theorem pop_inv {ch : Chan} (h : ChanInv ch) (hcap : ch.cap ≠ 0) (hne : ch.len ≠ 0) : ChanInv ch.pop := by
+theorem pop_inv {ch : Chan} (h : ChanInv ch) (hcap : ch.cap ≠ 0) (hne : ch.len ≠ 0) (r : Tid) : ChanInv (ch.pop r) := by
   have hlen := h.lenle
   have hg := h.getp_lt (by omega)
   constructor
@@ -112,9 +116,11 @@ theorem pop_inv {ch : Chan} (h : ChanInv ch) (hcap : ch.cap ≠ 0) (hne : ch.len
   · intro hc; exact absurd hc hcap
   · intro hc; exact absurd hc hcap
   · intro hc; exact absurd hc hcap
+  · simp [Chan.pop, h.sent_by]
+  · simp [Chan.pop, h.recv_by, Chan.front]
 
-theorem handOff_inv {ch : Chan} (h : ChanInv ch) (hcap : ch.cap = 0) (hg : ch.getp = hasRecv) (v : Val) :
-    ChanInv (ch.handOff v).1 := by
+theorem handOff_inv {ch : Chan} (h : ChanInv ch) (hcap : ch.cap = 0) (hg : ch.getp = hasRecv) (t : Tid) (v : Val) :
+    ChanInv (ch.handOff t v).1 := by
   have hs := h.unb_armed hcap hg
   obtain ⟨tg, htg⟩ := Option.isSome_iff_exists.mp hs
   simp only [Chan.handOff, htg]
@@ -126,11 +132,14 @@ theorem handOff_inv {ch : Chan} (h : ChanInv ch) (hcap : ch.cap = 0) (hg : ch.ge
   · exact h.unb_len
   · intro _; simp [h.unb_hist hcap]
   · intro _ hgp; simp [noSendRecv, hasRecv] at hgp
+  · simp [h.sent_by]
+  · simp [h.recv_by]
 
 /-- fields that only the bookkeeping of blocked senders / selects touches do not matter for `ChanInv` -/
 theorem inv_of_same {ch ch' : Chan} (h : ChanInv ch)
     (h1 : ch'.cap = ch.cap) (h2 : ch'.data = ch.data) (h3 : ch'.slot = ch.slot) (h4 : ch'.getp = ch.getp)
-    (h5 : ch'.len = ch.len) (h6 : ch'.sent = ch.sent) (h7 : ch'.recvd = ch.recvd) : ChanInv ch' := by
+    (h5 : ch'.len = ch.len) (h6 : ch'.sent = ch.sent) (h7 : ch'.recvd = ch.recvd)
+    (h8 : ch'.sentBy = ch.sentBy) (h9 : ch'.recvBy = ch.recvBy) : ChanInv ch' := by
   constructor
   · rw [h2, h1]; exact h.dlen
   · rw [h5, h1]; exact h.lenle
@@ -139,6 +148,8 @@ theorem inv_of_same {ch ch' : Chan} (h : ChanInv ch)
   · rw [h1, h5]; exact h.unb_len
   · rw [h1, h6, h7]; exact h.unb_hist
   · rw [h1, h4, h3]; exact h.unb_armed
+  · rw [h8, h6]; exact h.sent_by
+  · rw [h9, h7]; exact h.recv_by
 
 theorem arm_inv {ch : Chan} (h : ChanInv ch) (hcap : ch.cap = 0) (tg : Target) :
     ChanInv { ch with getp := hasRecv, slot := some tg } := by
@@ -150,14 +161,16 @@ theorem arm_inv {ch : Chan} (h : ChanInv ch) (hcap : ch.cap = 0) (tg : Target) :
   · exact h.unb_len
   · exact h.unb_hist
   · intro _ _; rfl
+  · exact h.sent_by
+  · exact h.recv_by
 
-theorem sendLoop_inv {ch : Chan} (h : ChanInv ch) (c : Cid) (v : Val) : ChanInv (sendLoop ch c v).ch := by
+theorem sendLoop_inv {ch : Chan} (h : ChanInv ch) (t : Tid) (c : Cid) (v : Val) : ChanInv (sendLoop ch t c v).ch := by
   unfold sendLoop
   split
   · rename_i hcap
     split
     · dsimp only
-      split <;> exact inv_of_same h rfl rfl rfl rfl rfl rfl rfl
+      split <;> exact inv_of_same h rfl rfl rfl rfl rfl rfl rfl rfl rfl
     · rename_i hne
       split
       · exact h
@@ -166,14 +179,14 @@ theorem sendLoop_inv {ch : Chan} (h : ChanInv ch) (c : Cid) (v : Val) : ChanInv 
           by_cases hg : ch.getp = hasRecv
           · exact hg
           · exfalso; apply hne; exact ⟨hg, by simpa using hcl⟩
-        exact handOff_inv h hcap hg v
+        exact handOff_inv h hcap hg t v
   · rename_i hcap
     split
     · exact h
     · rename_i hlen
       split
       · exact h
-      · exact push_inv h hcap hlen v
+      · exact push_inv h hcap hlen t v
 
 theorem recvLoop_inv {ch : Chan} (h : ChanInv ch) (c : Cid) (tg : Target) : ChanInv (recvLoop ch c tg).ch := by
   unfold recvLoop
@@ -188,7 +201,7 @@ theorem recvLoop_inv {ch : Chan} (h : ChanInv ch) (c : Cid) (tg : Target) : Chan
     split
     · split <;> exact h
     · rename_i hlen
-      exact pop_inv h hcap hlen
+      exact pop_inv h hcap hlen _
 
 theorem recv2Loop_inv {ch : Chan} (h : ChanInv ch) (c : Cid) (b : Bool) (seq : Nat) :
     ChanInv (recv2Loop ch c b seq).ch := by
@@ -197,9 +210,9 @@ theorem recv2Loop_inv {ch : Chan} (h : ChanInv ch) (c : Cid) (b : Bool) (seq : N
 theorem closeBody_inv {ch : Chan} (h : ChanInv ch) : ChanInv (closeBody ch).ch := by
   unfold closeBody; split
   · exact h
-  · exact inv_of_same h rfl rfl rfl rfl rfl rfl rfl
+  · exact inv_of_same h rfl rfl rfl rfl rfl rfl rfl rfl rfl
 
-theorem trySendBody_inv {ch : Chan} (h : ChanInv ch) (v : Val) : ChanInv (trySendBody ch v).ch := by
+theorem trySendBody_inv {ch : Chan} (h : ChanInv ch) (t : Tid) (v : Val) : ChanInv (trySendBody ch t v).ch := by
   unfold trySendBody
   split
   · rename_i hcap
@@ -210,12 +223,12 @@ theorem trySendBody_inv {ch : Chan} (h : ChanInv ch) (v : Val) : ChanInv (trySen
         by_cases hg : ch.getp = hasRecv
         · exact hg
         · exfalso; exact hne (Or.inl hg)
-      exact handOff_inv h hcap hg v
+      exact handOff_inv h hcap hg t v
   · rename_i hcap
     split
     · exact h
     · rename_i hne
-      exact push_inv h hcap (fun e => hne (Or.inl e)) v
+      exact push_inv h hcap (fun e => hne (Or.inl e)) t v
 
 theorem tryRecvBody_inv {ch : Chan} (h : ChanInv ch) (tg : Target) (a : Bool) : ChanInv (tryRecvBody ch tg a).ch := by
   unfold tryRecvBody
@@ -230,31 +243,31 @@ theorem tryRecvBody_inv {ch : Chan} (h : ChanInv ch) (tg : Target) (a : Bool) : 
     split
     · exact h
     · rename_i hlen
-      exact pop_inv h hcap hlen
+      exact pop_inv h hcap hlen _
 
 theorem prepBody_inv {ch : Chan} (h : ChanInv ch) (t : Tid) (b : Bool) : ChanInv (prepBody ch t b).ch := by
   by_cases hc : ch.cap = 0 ∧ b = true
-  · simp only [prepBody, if_pos hc]; exact inv_of_same h rfl rfl rfl rfl rfl rfl rfl
-  · simp only [prepBody, if_neg hc]; exact inv_of_same h rfl rfl rfl rfl rfl rfl rfl
+  · simp only [prepBody, if_pos hc]; exact inv_of_same h rfl rfl rfl rfl rfl rfl rfl rfl rfl
+  · simp only [prepBody, if_neg hc]; exact inv_of_same h rfl rfl rfl rfl rfl rfl rfl rfl rfl
 
 theorem endBody_inv {ch : Chan} (h : ChanInv ch) (t : Tid) (b : Bool) : ChanInv (endBody ch t b).ch := by
   by_cases hc : ch.cap = 0 ∧ b = true
-  · simp only [endBody, if_pos hc]; exact inv_of_same h rfl rfl rfl rfl rfl rfl rfl
-  · simp only [endBody, if_neg hc]; exact inv_of_same h rfl rfl rfl rfl rfl rfl rfl
+  · simp only [endBody, if_pos hc]; exact inv_of_same h rfl rfl rfl rfl rfl rfl rfl rfl rfl
+  · simp only [endBody, if_neg hc]; exact inv_of_same h rfl rfl rfl rfl rfl rfl rfl rfl rfl
 
 /-- every critical section of `z_chan.go` preserves the channel invariant -/
 theorem body_inv {ch : Chan} (h : ChanInv ch) (p : Point) (t : Tid) : ChanInv (body p t ch).ch := by
   cases p <;> simp only [body]
-  · exact sendLoop_inv h _ _
-  · exact sendLoop_inv (ch := { ch with sends := ch.sends - 1 }) (inv_of_same h rfl rfl rfl rfl rfl rfl rfl) _ _
-  · exact sendLoop_inv h _ _
+  · exact sendLoop_inv h _ _ _
+  · exact sendLoop_inv (ch := { ch with sends := ch.sends - 1 }) (inv_of_same h rfl rfl rfl rfl rfl rfl rfl rfl rfl) _ _ _
+  · exact sendLoop_inv h _ _ _
   · exact recvLoop_inv h _ _
   · exact recvLoop_inv h _ _
   · exact recvLoop_inv h _ _
   · exact recv2Loop_inv h _ _ _
   · exact recv2Loop_inv h _ _ _
   · exact closeBody_inv h
-  · exact trySendBody_inv h _
+  · exact trySendBody_inv h _ _
   · exact tryRecvBody_inv h _ _
   · exact prepBody_inv h _ _
   · exact endBody_inv h _ _
